@@ -19,6 +19,7 @@ CONSTANTS
   Record = FALSE
   History = TRUE
   Depth = 0
+  Edges = TRUE
   Deviations = {}
 INVARIANTS TypeOK P_C11_Slices P_C11_Bounded P_C11_Conservation P_C11_NoBufferFull P_C11_CanReceive Lemma_PosHalf P_C11_History P_C11_WriteAccepted
 PROPERTIES P_C11_Live P_C11_DeliverHead
